@@ -2,7 +2,7 @@
 From Coq Require Import List NArith ZArith Bool.
 From SK Require Import lib.LGraph lib.Mono.
 From SK Require model.C06_Model model.C11_Model.
-From SK Require Import model.C03_Model model.C05_Model proof.C05_Proof proof.C05_Glue proof.C05_Pipe proof.C05_Prep proof.C05_Comp proof.C05_Main proof.C05_Order proof.C05_Sub proof.C05_Set proof.C05_Result proof.C05_AllStrat proof.C05_PrepOrder proof.C05_Final proof.C05_Default proof.C05_Rewrite proof.C05_Capstone proof.C05_Refuted proof.C05_Cap proof.C05_AnyCap proof.C05_Partial proof.C05_PartialOrder proof.C05_PartialCap.
+From SK Require Import model.C03_Model model.C05_Model proof.C05_Proof proof.C05_Glue proof.C05_Pipe proof.C05_Prep proof.C05_Comp proof.C05_Main proof.C05_Order proof.C05_Sub proof.C05_Set proof.C05_Result proof.C05_AllStrat proof.C05_PrepOrder proof.C05_Final proof.C05_Default proof.C05_Rewrite proof.C05_Capstone proof.C05_Refuted proof.C05_Cap proof.C05_AnyCap proof.C05_Partial proof.C05_PartialOrder proof.C05_PartialCap proof.C05_Prefilter proof.C05_PrefilterOrder.
 From SK Require Import lib.C06_Spec proof.C06_Comp.
 From SK Require proof.C11_Dedup.
 From Coq Require Import Permutation.
@@ -414,3 +414,75 @@ Lemma thm_partial_matches_order_independent :
     | _, _ => False
     end.
 Proof. intros TH host host' pat. apply partial_matches_host_order. Qed.
+
+(** ** SynReactor(embed_pre_filter=True) (proof/C05_Prefilter.v) *)
+Lemma thm_prefilter :
+  forall (TH : Thr),
+  (forall strat host pat, matches_pf false strat host pat = matches strat host pat) /\
+  (forall strat host pat,
+     matches_pf true strat host pat
+     = if C06_Model.quick_pre_filter (host_c06 host) (pat_c06 pat) thr_val then [] else matches strat host pat) /\
+  (forall strat host p,
+     glued_of_pf true strat host p = if prefilter_fires host p then [] else glued_of strat host p) /\
+  (forall (sg pi : N -> N), inj sg -> inj pi ->
+   forall (H P : C06_Model.graph) thr,
+     C06_Model.quick_pre_filter (relabel pi H) (relabel sg P) thr = C06_Model.quick_pre_filter H P thr) /\
+  (forall (pref : bool) (strat : N) (sg pi : N -> N), inj sg -> inj pi ->
+   forall (host : hostg) (pat : molg),
+     matches_pf pref strat (relabel pi host) (relabel sg pat) = map (mv sg pi) (matches_pf pref strat host pat)) /\
+  (forall (pref : bool) (strat : N) (sg pi : N -> N), inj sg -> inj pi ->
+   forall (host : hostg) (p : prepared), p_flag p = false ->
+     glued_of_pf pref strat (relabel pi host) (relabel_prep sg p) = map (relabel pi) (glued_of_pf pref strat host p)).
+Proof.
+  intros TH. split; [reflexivity|]. split; [apply matches_pf_true|]. split; [apply glued_of_pf_true|].
+  split; [intros sg pi Hs Hp H P thr; apply quick_pre_filter_relabel; assumption|].
+  split; [intros pref strat sg pi Hs Hp host pat; apply matches_pf_relabel; assumption|].
+  intros pref strat sg pi Hs Hp host p Hf. apply glued_of_pf_relabel; assumption.
+Qed.
+
+Lemma thm_prefilter_decision_invariant :
+  forall (TH : Thr) (host host' : hostg) (p p' : prepared),
+    same_graph host host' -> same_graph (p_pat p) (p_pat p') ->
+    C06_Model.wfb (host_c06 host) = true -> C06_Model.wfb (host_c06 host') = true ->
+    C06_Model.wfb (pat_c06 (p_pat p)) = true -> C06_Model.wfb (pat_c06 (p_pat p')) = true ->
+    prefilter_fires host' p' = prefilter_fires host p /\
+    (forall strat, p_flag p = false -> p_flag p' = false ->
+       prefilter_fires host p = true -> glued_of_pf true strat host p = [] /\ glued_of_pf true strat host' p' = []).
+Proof.
+  intros TH host host' p p' Hh Hp W1 W2 W3 W4.
+  assert (E : prefilter_fires host' p' = prefilter_fires host p).
+  { apply prefilter_fires_any_order; try assumption; apply C06_Main.wfb_spec; assumption. }
+  split; [exact E|]. intros strat _ _ Hf. rewrite !glued_of_pf_true, E, Hf. split; reflexivity.
+Qed.
+
+Lemma thm_result_set_invariant_exhaustive_any_options :
+  forall (TH : Thr) (pref : bool) (sg pi : N -> N), inj sg -> inj pi ->
+  forall (host host'' : hostg) (p p'' : prepared),
+    side_okb0 (relabel pi host) (relabel_prep sg p) = true -> side_okb0 host'' p'' = true ->
+    C06_Model.wfb (host_c06 (relabel pi host)) = true -> C06_Model.wfb (host_c06 host'') = true ->
+    C06_Model.wfb (pat_c06 (p_pat (relabel_prep sg p))) = true -> C06_Model.wfb (pat_c06 (p_pat p'')) = true ->
+    same_graph (relabel pi host) host'' -> same_graph (relabel sg (p_rc p)) (p_rc p'') ->
+    same_graph (relabel sg (p_pat p)) (p_pat p'') ->
+    (forall T, In T (glued_of_pf pref 0%N host p) -> exists T'', In T'' (glued_of_pf pref 0%N host'' p'') /\ obs_eq (relabel pi T) T'') /\
+    (forall T'', In T'' (glued_of_pf pref 0%N host'' p'') -> exists T, In T (glued_of_pf pref 0%N host p) /\ obs_eq (relabel pi T) T'').
+Proof.
+  intros TH pref sg pi Hs Hp host host'' p p'' S S'' W1 W2 W3 W4 Hh Hr Hpt.
+  apply (glued_set_rewriting_any_cap_pf pref sg pi Hs Hp host host'' p p''); try assumption;
+    try (apply side_okb0_ok; assumption); apply C06_Main.wfb_spec; assumption.
+Qed.
+
+Lemma thm_strategy_subset_any_cap :
+  forall (TH : Thr) (host : hostg) (pat : molg),
+    gwf (host_c06 host) -> gwf (pat_c06 pat) ->
+    (C06_Model.lenN (enum_all host pat) <= thr_val)%N ->
+    (forall m, In m (matches 1%N host pat) -> exists m', In m' (matches 0%N host pat) /\ Permutation.Permutation m m') /\
+    (forall m, In m (matches 2%N host pat) -> exists m', In m' (matches 0%N host pat) /\ Permutation.Permutation m m').
+Proof.
+  intros TH host pat Hw Pw Hl. split; [apply comp_subset_all_any_cap | apply bt_subset_all_any_cap]; assumption.
+Qed.
+
+Lemma thm_strategy_subset_results_any_cap :
+  forall (TH : Thr) (host : hostg) (p : prepared), side_okb host p = true ->
+    (forall T, In T (glued_of 1%N host p) -> exists T', In T' (glued_of 0%N host p) /\ obs_eq T T') /\
+    (forall T, In T (glued_of 2%N host p) -> exists T', In T' (glued_of 0%N host p) /\ obs_eq T T').
+Proof. intros TH host p H. apply glued_subset_all_any_cap. apply side_okb_ok. exact H. Qed.
